@@ -55,7 +55,8 @@ def required_cells(tier):
             "hist:tebd": 3, "histories_checked": 400, "restart": 3,
             "idempotence:pttempo": 1, "idempotence:gibbs": 1,
             "fault:tempo_td": 1, "fault:tempo_corr": 1, "fault:pttempo_corr": 1,
-            "fault:meanfield": 1, "faults_injected": 60,
+            "fault:meanfield": 1, "fault:gibbs_j": 1,
+            "faults_injected": 60,
             "decreasing-target": 3, "repeated-target": 3,
             "edge:tempo": 2, "edge:meanfield": 1, "edge_hair_targets": 40}
 
@@ -84,7 +85,8 @@ def cases(tier, seed):
     for i in range(6 if tier == "quick" else 36):
         out.append({"kind": "edge", "seed": seed, "idx": i, "tier": tier})
     nf = 2 if tier == "quick" else 8
-    for fc in ("tempo_td", "tempo_corr", "pttempo_corr", "meanfield"):
+    for fc in ("tempo_td", "tempo_corr", "pttempo_corr", "meanfield",
+               "gibbs_j"):
         for i in range(nf):
             out.append({"kind": "fault", "cfg": fc, "seed": seed, "idx": i,
                         "tier": tier})
@@ -448,6 +450,10 @@ class CorrProbe:
         self.fail_at = None
         self.raised = 0
 
+    @property
+    def n_raised(self):
+        return self.raised
+
     def __call__(self, t):
         self.count += 1
         if self.fail_at is not None and self.count == self.fail_at:
@@ -455,6 +461,9 @@ class CorrProbe:
             raise scen.Probe.Boom(f"injected fault in correlation call "
                                   f"{self.count}")
         return self.fn(t)
+
+
+PROG = ["silent"]
 
 
 def run_fault(case):
@@ -485,8 +494,36 @@ def run_fault(case):
                 dyn = t.get_dynamics()
                 return (np.array(dyn.times),
                         np.array(dyn.states).reshape(len(dyn.times), -1))
-            return (lambda: t.compute(end, progress_type="silent"), snap,
+            return (lambda: t.compute(end, progress_type=PROG[0]), snap,
                     probe)
+        if cfg == "gibbs_j":
+            # the imaginary-time computation with a failing spectral-density
+            # callable (same contract: a repeated compute() gives the same
+            # dynamics and state, or raises again)
+            n_g = [3, 4, 2, 6][i % 4]
+            jp = CorrProbe(lambda w: 0.4 * w * np.exp(-w / 3.0))
+            corr = oqupy.CustomSD(np.vectorize(jp, otypes=[float]),
+                                  cutoff=3.0, cutoff_type=["hard",
+                                  "exponential"][i % 2], temperature=1.3)
+            gt = oqupy.GibbsTempo(
+                oqupy.System(np.diag([0.3, -0.4, 0.9]).astype(complex)),
+                oqupy.Bath(np.diag([0.5, -0.2, 0.1]).astype(complex), corr),
+                oqupy.GibbsParameters(n_g, 1e-9))
+            jp.count = 0
+
+            def snap():
+                dyn = gt.get_dynamics()
+                if dyn is None:
+                    return None
+                st = np.array(dyn.states)
+                if len(st) != len(dyn.times):
+                    raise Misaligned(f"{len(dyn.times)} times but "
+                                     f"{len(st)} states")
+                return (np.array(dyn.times), np.concatenate(
+                    [st.reshape(len(dyn.times), -1),
+                     np.tile(gt.get_state().reshape(1, -1),
+                             (len(dyn.times), 1))], axis=1))
+            return (lambda: gt.compute(progress_type=PROG[0]), snap, jp)
         if cfg in ("tempo_corr", "pttempo_corr"):
             from vp.ref import bath as rbath
             cfun = rbath.finite_mode_correlation([1.3, 2.1], [0.3, 0.25],
@@ -514,18 +551,18 @@ def run_fault(case):
                     dyn = t.get_dynamics()
                     return (np.array(dyn.times),
                             np.array(dyn.states).reshape(len(dyn.times), -1))
-                return (lambda: t.compute(end, progress_type="silent"), snap,
+                return (lambda: t.compute(end, progress_type=PROG[0]), snap,
                         cp)
             ptt = oqupy.PtTempo(bath, start, end, params)
 
             def comp():
-                return ptt.get_process_tensor(progress_type="silent")
+                return ptt.get_process_tensor(progress_type=PROG[0])
 
             def snap():
-                pt = ptt.get_process_tensor(progress_type="silent")
+                pt = ptt.get_process_tensor(progress_type=PROG[0])
                 dyn = oqupy.compute_dynamics(sysm, rho0, process_tensor=pt,
                                              start_time=start,
-                                             progress_type="silent")
+                                             progress_type=PROG[0])
                 return (np.array(dyn.times),
                         np.array(dyn.states).reshape(len(dyn.times), -1))
             return comp, snap, cp
@@ -549,7 +586,7 @@ def run_fault(case):
                     for sd in dyn.system_dynamics]
             arrs.append(np.array(dyn.fields).reshape(-1, 1))
             return np.array(dyn.times), np.concatenate(arrs, axis=1)
-        return (lambda: t.compute(end, progress_type="silent"), snap, probe)
+        return (lambda: t.compute(end, progress_type=PROG[0]), snap, probe)
 
     comp, snap, probe = build()
     c0 = probe.count
@@ -559,7 +596,7 @@ def run_fault(case):
     if total <= 0:
         return {"inconclusive": "no user callable was called"}
     idxs = list(range(1, total + 1))
-    if cfg in ("tempo_corr", "pttempo_corr"):
+    if cfg in ("tempo_corr", "pttempo_corr", "gibbs_j"):
         # the correlation function is evaluated thousands of times inside
         # each 2-D quadrature; fault indices inside one quadrature are
         # equivalent, so the index range is sampled evenly
@@ -576,9 +613,31 @@ def run_fault(case):
         comp, snap, probe = build()
         base = probe.count
         probe.fail_at = base + j
+        # the progress reporting in use must make no difference (it wraps
+        # the stepping loops as a context manager)
+        PROG[0] = ["silent", "simple", "silent", "bar"][j % 4]
         try:
             comp()
             fired = False
+            if probe.n_raised > 0:
+                # the user's exception did not come out of the call
+                got = snap()
+                eq, dev = same(got, ref)
+                injected += 1
+                if not eq:
+                    violations.append({
+                        "what": f"{cfg}: a user callable raised at its call "
+                                f"{j} of {total} but compute("
+                                f"progress_type={PROG[0]!r}) returned "
+                                f"normally, with dynamics of "
+                                f"{len(got[0]) if got else 0} instead of "
+                                f"{len(ref[0])} time points",
+                        "mechanism": "failure-swallowed",
+                        "detail": {"fault_index": j}})
+                    if len(violations) >= 4:
+                        break
+                PROG[0] = "silent"
+                continue
         except scen.Probe.Boom:
             fired = True
         except Exception as exc:   # a wrapped/derived exception
@@ -586,6 +645,7 @@ def run_fault(case):
             if not fired:
                 raise
         probe.fail_at = None
+        PROG[0] = "silent"
         if not fired:
             continue          # fault index not reached in this run
         injected += 1
@@ -673,15 +733,15 @@ def run_edge(case):
     for off in offs:
         target = start + (n + off) * dt
         ref = make()
-        ref.compute(target, progress_type="silent")
+        ref.compute(target, progress_type=PROG[0])
         rsnap = snap(ref)
         for frac in (0.1, 0.5, 0.75, 0.95):
             k = max(1, min(n - 1, int(round(frac * n))))
             obj = make()
             # the intermediate target as a user would write it
             obj.compute(float(repr(round(start + k * dt, 10))),
-                        progress_type="silent")
-            obj.compute(target, progress_type="silent")
+                        progress_type=PROG[0])
+            obj.compute(target, progress_type=PROG[0])
             eq, dev = same(snap(obj), rsnap)
             monitors["edge_histories"] += 1
             if off != 0.0 and abs(off) < 1e-3:
